@@ -212,6 +212,7 @@ class Interp:
             "functools.reduce": PyFunc(self._reduce, "reduce", True),
             "itertools.product": PyFunc(lambda *a, repeat=1: list(__import__("itertools").product(*[list(q) for q in a], repeat=repeat)), "product", True),
             "itertools.chain": PyFunc(lambda *a: [y for q in a for y in q], "chain", True),
+            "itertools.groupby": PyFunc(self._groupby, "groupby", True),
             "itertools.combinations": PyFunc(lambda a, r: list(__import__("itertools").combinations(list(a), r)), "combinations", True),
             "collections.namedtuple": PyFunc(lambda name, fields, **k: PyFunc(lambda *a, **kw: tuple(a) + tuple(kw[f] for f in fields[len(a):]), name, True), "namedtuple", True),
             "sympy.utilities.iterables.iterable": PyFunc(lambda x, *a, **k: isinstance(x, (list, tuple, set, dict)), "iterable", True),
@@ -288,6 +289,16 @@ class Interp:
         if isinstance(v, T):
             return name in self.tables.get(v.cls, {})
         return hasattr(v, name)
+
+    def _groupby(self, seq, key=None):
+        out = []
+        for x in list(seq):
+            k = self.call(key, [x], {}) if key is not None else x
+            if out and out[-1][0] == k:
+                out[-1][1].append(x)
+            else:
+                out.append((k, [x]))
+        return out
 
     def _sum(self, seq, start=0):
         if isinstance(seq, (Unk, T, Obj)):
@@ -764,6 +775,8 @@ class Interp:
                 return o
             if f.name in ("list", "tuple") and len(args) == 1 and isinstance(args[0], (list, tuple, GenList)):
                 return list(args[0]) if f.name == "list" else tuple(args[0])
+            if f.name == "bool" and len(args) == 1 and not kwargs:
+                return self.truth(args[0], node)
             if f.name == "str" and len(args) == 1 and not kwargs:
                 txt = _fmt(args[0])
                 return txt if txt is not None else Unk("str")
